@@ -451,10 +451,14 @@ public:
       typename ttbl_t::term_map_t gen_map /*unused*/;
 
       // Build up the mapping of right onto left, variable by variable.
-      // Assumption: the set of variables in left & right are common.
-      for (auto p : left.m_var_map) {
+      // The sets of variables of left and right can differ: a
+      // variable tracked only by right may be constrained there, so
+      // it must be mapped as well (left gets a fresh unconstrained
+      // term for it). A variable tracked only by left is
+      // unconstrained in right so it does not need to be mapped.
+      for (auto p : right.m_var_map) {
         if (!left.m_ttbl.map_leq(right.m_ttbl, left.term_of_var(p.first),
-                                 right.term_of_var(p.first), gen_map))
+                                 p.second, gen_map))
           return false;
       }
       return true;
